@@ -425,7 +425,7 @@ Eval(e, env, st, cx) ==
                           ELSE IF x.n = 0 THEN pair(x, Zero(0))
                           ELSE LET ex == FloorLog2(x.n, x.d)
                                    m  == RMulPow2(x, -ex)
-                                   ev == MRound(cx, OfInt(ex), r.st)
+                                   ev == exact(OfInt(ex))          \* exactly, like the mantissa (the code raises where the context cannot hold it)
                                    mv == exact(m)
                                IN  IF mv.err # "" THEN mv ELSE IF ev.err # "" THEN ev ELSE Ok(Tup(<<mv.v, ev.v>>), r.st)
       [] OTHER -> Er("Unsupported", st)
